@@ -201,6 +201,13 @@ Theorem C18_own_is_owned : forall w t e,
 Proof. exact own_in_roster. Qed.
 Print Assumptions C18_own_is_owned.
 
+(* "... and only that": a task owned by a live environment of the current life is never sent
+   KILL while a reconciliation answer is processed, in any state at all, whatever the answer says *)
+Theorem C18_owned_never_killed_by_answer : forall w t e,
+  Own w t e -> ~ In (CKill t) (snd (step w OAnswer)).
+Proof. exact owned_never_killed_by_answer. Qed.
+Print Assumptions C18_owned_never_killed_by_answer.
+
 (* What makes a roster task ACTIVE or INACTIVE (regenerated from updateTaskStatus): TASK_RUNNING
    activates, TASK_LOST and TASK_FAILED deactivate, no state in which the master has a task
    alive deactivates, and TASK_RUNNING is the only live state that activates.  So INACTIVE roster
